@@ -271,7 +271,7 @@ def obligations(tier, known):
 
 
 CLAIM = ("For every assignment of three commands to up to three platforms, every command order, every selected subset and every -D choice in "
-         "6 scenarios with shared headers (guards, #pragma once, #undef of command-line macros, same header from two directories), the "
+         "8 scenarios with shared headers (guards, #pragma once, #undef of command-line macros, same header from two directories, a computed include), the "
          "full analysis equals the union of fresh single-command analyses, the reference preprocessor, its own permutations and the "
          "projection of itself - exhausted by CrossHair.")
 LEVEL_NOTE = ("Trusted: CrossHair/z3 for the enumeration, vp/memfs.py, vp/refs/ref_cpp.py (gcc -E on replay). Bounded: 8 templates, 3 commands, "
